@@ -233,8 +233,8 @@ def effect (t : Tables) (inFace : Nat) (v : Verb) (a : Args) (newId : Nat := 0) 
   | .faceDestroy =>
     let f := a.faceId.getD 0
     if (faceGet t.faces f).isSome then
-      { t := { t with faces := faceRemove t.faces f, rib := ribCleanFace t.rib f }, echo := a, fibFree := true }
-    else { t := t, echo := a, fibFree := true }
+      { t := { t with faces := faceRemove t.faces f, rib := ribCleanFace t.rib f }, echo := { faceId := a.faceId }, fibFree := true }
+    else { t := t, echo := { faceId := a.faceId }, fibFree := true }
   | .faceCreate =>
     (match (a.uri.bind uriClass) with
      | some (.udp canon) =>
